@@ -20,7 +20,8 @@ FAMS = gen.ALL_FAMILIES
 
 
 def floors(tier):
-    return {"states_checked": 3000, "results_checked": 500, "restarts_checked": 100, "accepted_not_last_trial": 10, "scaled_runs": 30, "__nontrivial__": 40}
+    return {"states_checked": 3000, "results_checked": 500, "restarts_checked": 100, "accepted_not_last_trial": 10, "scaled_runs": 30, "runs_with_reused_gradient_buffer": 80,
+            "callback_states_reinspected_after_the_run": 3000, "runs_from_a_start_beyond_unit_step_resolution": 30, "runs_that_could_not_leave_x0": 5, "__nontrivial__": 40}
 
 
 def cases(tier, seed):
@@ -44,6 +45,13 @@ def cases(tier, seed):
         }
         if not chain and rng.random() < 0.35:
             cfg["scaler"] = float(np.exp(rng.uniform(np.log(1e-3), np.log(1e3))))
+        if i % 25 == 11 and not chain:
+            ps = gen.rand_spec(rng, ("qp", "sphere", "quartic", "qp_quartic"), nmax=6, boxes=("none", "lower", "upper"), starts=("interior",))
+            ps["start_scale"] = float(gen.pick(rng, [1e17, 1e18, 1e20]))
+            cfg["jac"] = "callable"
+            cfg["scaler"] = float(np.exp(rng.uniform(np.log(1e-3), np.log(1e3))))
+        if cfg["jac"] == "callable" and rng.random() < 0.3:
+            cfg["reuse_grad_buffer"] = True  # the user's gradient fills and returns one preallocated array
         yield {"problem": ps, "cfg": cfg, "chain": chain}
 
 
@@ -159,6 +167,22 @@ def run(spec):
             out.count("fd_njev_checked")
         if out.violations:
             break
+        # the states handed to the callback, looked at again once the run is over (a user who keeps them, e.g. to pick the best)
+        for i, rec in enumerate(tr.cb):
+            out.count("callback_states_reinspected_after_the_run")
+            bad = probes.diff_states(probes.snap_state(rec["ref"]), rec["snap"])
+            if bad:
+                out.violate("kept_state_changed", f"{where}: the state handed to callback #{i} changed after the callback returned (fields {bad}): "
+                            f"its fun/jac no longer belong to its x", **dict(tags, where="kept_callback_state"))
+                break
+        if out.violations:
+            break
+        if cfg.get("reuse_grad_buffer"):
+            out.count("runs_with_reused_gradient_buffer")
+        if P.spec.get("start_scale"):
+            out.count("runs_from_a_start_beyond_unit_step_resolution")
+            if np.array_equal(tr.snap["x"], tr.evals[0][1]):
+                out.count("runs_that_could_not_leave_x0")  # every trial point rounded back onto x0 (served from the memo)
         nre += reevaluated(tr)
         kept.append((step, tr.result, tr.snap))
         for kstep, kres, ksnap in kept[:-1]:
